@@ -871,6 +871,11 @@ fn parse_remb_body(body: &[u8]) -> RtpResult<RemoteBitrateEstimate> {
     let mantissa = ((u32::from(body[13] & 0x03) << 16)
         | (u32::from(body[14]) << 8)
         | u32::from(body[15])) as u64;
+    // An 18-bit mantissa shifted by up to 63 can exceed 64 bits; reject instead of
+    // silently dropping the high bits.
+    if mantissa != 0 && u32::from(exponent) > mantissa.leading_zeros() {
+        return Err(RtpError::InvalidRtcp("REMB bitrate does not fit in 64 bits"));
+    }
     let bitrate_bps = mantissa << exponent;
     let mut ssrcs = Vec::with_capacity(num_ssrc);
     let mut offset = 16;
